@@ -15,7 +15,7 @@ def simple_shot(**kw):
 
 
 def make_row(time: float = 0.0, distance=None, height=None, target_drop=None, velocity=None, mach: float = 1.0,
-             flag: int = 8, drop_adj=None, windage_adj=None):
+             flag: int = 8, drop_adj=None, windage_adj=None, look_distance=None):
     """A TrajectoryData row with the given (exact) fields; the rest neutral."""
     m = pb()
     U = m.Unit
@@ -26,7 +26,8 @@ def make_row(time: float = 0.0, distance=None, height=None, target_drop=None, ve
         height=height if height is not None else z,
         target_drop=target_drop if target_drop is not None else z,
         drop_adj=drop_adj if drop_adj is not None else U.Radian(0), windage=z,
-        windage_adj=windage_adj if windage_adj is not None else U.Radian(0), look_distance=z,
+        windage_adj=windage_adj if windage_adj is not None else U.Radian(0),
+        look_distance=look_distance if look_distance is not None else (distance if distance is not None else z),
         angle=U.Radian(0), density_factor=0.0, drag=0.0, energy=U.FootPound(0), ogw=U.Pound(0), flag=flag)
 
 
